@@ -7,6 +7,7 @@ import (
 	"fmt"
 	"os"
 	"regexp"
+	"runtime"
 	"slices"
 	"sort"
 	"strings"
@@ -1086,9 +1087,111 @@ func runWatchScenarios(t *testing.T, dir string, rep *Report, prop string, scs [
 	flush()
 }
 
+// burstWhileIdle: a caught-up, parked watcher and then more than `capacity` commits before it gets to run again (one
+// processor, no yield inside the burst). Whatever the scheduler did, the subscriber must afterwards hold a gap-free
+// continuation of what it had - or have been told Errored. Silence about a gap is the violation.
+func burstWhileIdle(t *testing.T, rep *Report) {
+	prev := runtime.GOMAXPROCS(1)
+	defer runtime.GOMAXPROCS(prev)
+
+	for it := range tier(40, 400) {
+		capacity := 2 + it%5
+		burst := capacity + 1 + it%7
+		agg := it%2 == 1
+
+		var problem string
+
+		synctest.Test(t, func(t *testing.T) {
+			ctx, cancel := context.WithCancel(context.Background())
+			defer cancel()
+
+			st := inmem.NewStateWithOptions(inmem.WithHistoryInitialCapacity(capacity), inmem.WithHistoryMaxCapacity(capacity), inmem.WithHistoryGap(0))("n1")
+			kind := resource.NewMetadata("n1", "T", "", resource.VersionUndefined)
+			ch := make(chan state.Event)
+			aggCh := make(chan []state.Event)
+
+			var err error
+			if agg {
+				err = st.WatchKindAggregated(ctx, kind, aggCh)
+			} else {
+				err = st.WatchKind(ctx, kind, ch)
+			}
+
+			if err != nil {
+				t.Fatal(err)
+			}
+
+			var got []state.Event
+
+			recvAll := func() {
+				for {
+					synctest.Wait()
+
+					select {
+					case e := <-ch:
+						got = append(got, e)
+					case es := <-aggCh:
+						got = append(got, es...)
+					default:
+						return
+					}
+				}
+			}
+
+			if err := st.Create(ctx, newRes("n1", "T", "r000", "p")); err != nil {
+				t.Fatal(err)
+			}
+
+			recvAll() // the watcher has delivered r000 and is parked, caught up
+
+			for i := 1; i <= burst; i++ {
+				if err := st.Create(ctx, newRes("n1", "T", fmt.Sprintf("r%03d", i), "p")); err != nil {
+					t.Fatal(err)
+				}
+			}
+
+			recvAll()
+
+			next, errored := 0, false
+
+			for _, e := range got {
+				switch {
+				case errored:
+					problem = "an event was delivered after Errored"
+				case e.Type == state.Errored:
+					errored = true
+				case e.Type == state.Created && e.Resource.Metadata().ID() == fmt.Sprintf("r%03d", next):
+					next++
+				default:
+					if problem == "" {
+						problem = fmt.Sprintf("after r%03d the subscriber was handed %v %s: %d committed change(s) were skipped without an Errored event", next-1, e.Type, e.Resource.Metadata().ID(), burst+1-next)
+					}
+				}
+			}
+
+			if problem == "" && !errored && next != burst+1 {
+				problem = fmt.Sprintf("the subscriber holds %d of %d events and was never told Errored", next, burst+1)
+			}
+
+			cancel()
+			synctest.Wait()
+		})
+
+		rep.count(fmt.Sprint("burstidle", it), true)
+		rep.hit("burst_while_idle")
+
+		if problem != "" {
+			rep.violateKey(it, "silent-gap", fmt.Sprintf("silent-gap: capacity %d, a burst of %d commits while the caught-up watcher was parked (aggregated=%v): %s", capacity, burst, agg, problem),
+				map[string]any{"burst_while_idle": map[string]any{"capacity": capacity, "burst": burst, "aggregated": agg}, "problem": problem})
+
+			return
+		}
+	}
+}
+
 func TestC02(t *testing.T) {
 	runWatchProperty(t, "C02",
-		"bootstrapped kind watches established while 4 writers commit (free-running goroutines): snapshot + events must chain without a gap per resource; watch scenarios on inmem with (initcap,maxcap,gap) from a grid forcing growth, wrap-around and the overrun boundary: writes / start watcher (single|kind|aggregated, bootstrap, selector) / recv, "+
+		"bootstrapped kind watches established while 4 writers commit (free-running goroutines): snapshot + events must chain without a gap per resource; a burst of more than capacity commits while a caught-up watcher is parked (one processor): gap-free continuation or Errored; watch scenarios on inmem with (initcap,maxcap,gap) from a grid forcing growth, wrap-around and the overrun boundary: writes / start watcher (single|kind|aggregated, bootstrap, selector) / recv, "+
 			"synctest.Wait() after every action (stalled consumers = watchers not received from); every delivered batch compared with the model; plus every action string of length<=L over 7 symbols for tiny capacities; "+
 			"non-trivial = overrun, rejected start, Updated chain or replay check exercised; distinct by scenario",
 		func(r *rng) []wScenario {
@@ -1113,6 +1216,7 @@ func TestC02(t *testing.T) {
 
 			return scs
 		}, func(rep *Report) {
+			burstWhileIdle(t, rep)
 			concurrentEstablishment(t, rep)
 			rep.Assumptions = append(rep.Assumptions, "interleavings inside one Watch call (snapshot vs start position) are sampled by free-running writers, not enumerated")
 		})
